@@ -84,6 +84,7 @@ class Contract:
         self.props = props if isinstance(props, dict) else tuple(props)
         self.doc = doc
         self.compare = None                  # optional custom comparison
+        self.theorems = None                 # optional property-level theorems stated on the real result
 
     def apply(self, interp, ctx, args, kwargs):
         """Modular use at a call site: the callee is represented by its spec only."""
@@ -124,6 +125,22 @@ class SpecCtx:
     def attr(self, obj, name):
         return self.interp.get_attr(obj, name, self.ctx)
 
+    def forall_int(self, tag, lo, hi, fn, cap=48):
+        """Universally quantified integer lo <= k < hi: a scoped skolem constant in symbolic mode,
+        enumeration (capped, ends always included) in concrete mode."""
+        ctx = self.ctx
+        if not is_sym(lo) and not is_sym(hi) and getattr(ctx, "enumerate_quantifiers", False):
+            ks = list(range(int(lo), int(hi)))
+            if len(ks) > cap:
+                ks = ks[:cap // 2] + ks[-cap // 2:]
+            for k in ks:
+                fn(k)
+            return
+        with ctx.scope():
+            k = ctx.fresh(tag, "int")
+            ctx.assume(z3.And(V.Z(lo) <= k, k < V.Z(hi)), why=f"skolem-{tag}")
+            fn(k)
+
     def fresh(self, prefix, sort="real"):
         return self.ctx.fresh(prefix, sort)
 
@@ -142,35 +159,38 @@ class SpecCtx:
 # --------------------------------------------------------------------------- abstract view of signals
 
 class SigView:
-    """Public attributes of a signal object, read through the real getters (or from the
+    """Public attributes of a signal object, read lazily through the real getters (or from the
     ghost record for inputs built by the harness)."""
+    _PUB = {"data": "data", "sr": "sample_rate", "t0": "start_time", "meta": "meta", "cf": "center_freq",
+            "bw": "chan_bw", "align": "freq_align", "pol": "pol_type"}
 
     def __init__(self, interp, ctx, obj):
         self.obj = obj
         self.cls = obj.cls
+        self._interp, self._ctx = interp, ctx
         g = getattr(obj, "ghost", None)
-        self._ctx = ctx
         if g is not None:
             self.__dict__.update(g)
-            if "align_arg" in g:
-                # effective alignment per the property statement: forced to 'center' for odd nchan
-                n = self.data.shape[1]
-                odd = ctx.branch(V.eq(V.mod_int(ctx, n, 2), 1), "spec:nchan odd")
-                self.align = "center" if odd else g["align_arg"]
+
+    def __getattr__(self, name):
+        if name.startswith("_"):
+            raise AttributeError(name)
+        d = self.__dict__
+        if name == "align" and "align_arg" in d:
+            # effective alignment per the property statement: forced to 'center' for odd nchan
+            n = self.data.shape[1]
+            odd = self._ctx.branch(V.eq(V.mod_int(self._ctx, n, 2), 1), "spec:nchan odd")
+            v = "center" if odd else d["align_arg"]
+        elif name in self._PUB:
+            v = self._interp.get_attr(self.obj, self._PUB[name], self._ctx)
+        elif name == "N":
+            v = self.data.shape[0]
+        elif name == "shape":
+            v = self.data.shape
         else:
-            self.data = interp.get_attr(obj, "data", ctx)
-            self.sr = interp.get_attr(obj, "sample_rate", ctx)
-            self.t0 = interp.get_attr(obj, "start_time", ctx)
-            self.meta = interp.get_attr(obj, "meta", ctx)
-            names = [c.name for c in obj.cls.mro()]
-            if "RadioSignal" in names:
-                self.cf = interp.get_attr(obj, "center_freq", ctx)
-                self.bw = interp.get_attr(obj, "chan_bw", ctx)
-                self.align = interp.get_attr(obj, "freq_align", ctx)
-            if "DualPolarizationSignal" in names:
-                self.pol = interp.get_attr(obj, "pol_type", ctx)
-        self.N = self.data.shape[0]
-        self.shape = self.data.shape
+            raise AttributeError(name)
+        d[name] = v
+        return v
 
     def is_a(self, name):
         return any(c.name == name for c in self.cls.mro())
@@ -413,6 +433,8 @@ def verify_function(interp, contract: Contract, inst: Instance, prop_prefix=""):
         c = SpecCtx(interp, ctx, contract)
         want = run_outcome(lambda: contract.spec(c, *pristine_args, **pristine_kwargs))
         compare_outcomes(interp, ctx, got, want)
+        if contract.theorems is not None and got.kind == "return" and want.kind == "return":
+            contract.theorems(c, got.value, *pristine_args, **pristine_kwargs)
         check_inputs_unchanged(interp, ctx, args, kwargs, pristine_args, pristine_kwargs)
 
     try:
